@@ -16,7 +16,9 @@ RULE = ("all digraphs on 3 nodes (out-degree <= 2, costs {0,1,2}, goal sets {2},
         "single-element UniformDistribution; rotating) x heuristics {0, exact, exact/2} x tie_breaking {lifo,fifo,random} x "
         "randomize_action_order x all generator answers (full branching). states/transitions = nodes/edges of the answer trees "
         "(1 per deterministic run); execution = one search run compared with the exact optimum. Non-trivial = a goal is reachable "
-        "by >= 2 distinct simple paths or the instance has >= 2 executions.")
+        "by >= 2 distinct simple paths or the instance has >= 2 executions. Plus the priority-queue family: 9-node fans for EVERY "
+        "push order of a 6-entry queue (720) x revised entry r in 1..6 x every 13th (thorough: every) assignment of goal costs "
+        "0..5 to the fan nodes x {lifo,fifo}, deterministic runs (thorough: + 10-node fans, 5040 push orders, every 89th assignment).")
 ASSUMPTIONS = [
     "edge costs are small non-negative integers (rewards = -cost), so all float sums are exact",
     "heuristics are consistent by construction (0, exact cost-to-go, half of it) and finite-valued: states that cannot reach a goal get the value 1000 instead of infinity (with infinite heuristic values A*'s stale-node assertion can fire on dead ends; not judged)",
@@ -31,8 +33,8 @@ INF = float('inf')
 
 
 def bounds(tier):
-    return {'quick': '3 nodes full (costs {0,1,2}); 4 nodes costs {0,1} goal {3}, costs {1,2} goals {2,3}; full RNG branching (cap 3000 executions/instance)',
-            'thorough': '+ wide-fan graphs on 10-14 nodes (deterministic order + random tie-breaks) + 4 nodes costs {0,1,2} goal {3} ; 5 nodes out-degree<=2 costs {1} goal {4} with <= 1 back edge'}[tier]
+    return {'quick': '3 nodes full (costs {0,1,2}); 4 nodes costs {0,1} goal {3}, costs {1,2} goals {2,3}; full RNG branching (cap 3000 executions/instance); queue family k=6: 720 push orders x 6 x 55-56 goal-cost assignments x 2',
+            'thorough': '+ queue family k=6 complete (720 x 6 x 720 x 2) and k=7 (5040 x 7 x 56-57 x 2) + wide-fan graphs on 10-14 nodes (deterministic order + random tie-breaks) + 4 nodes costs {0,1,2} goal {3} ; 5 nodes out-degree<=2 costs {1} goal {4} with <= 1 back edge'}[tier]
 
 
 def node_options(n, costs, max_out=2, ordered=False):
@@ -122,6 +124,63 @@ def graph_items(tier):
 def items(tier, seed):
     for i, g in enumerate(graph_items(tier)):
         yield (g, (i + seed) % 4, (i // 4 + seed) % 2)
+    # priority-queue family: every push order of a 6-entry queue (thorough: + 7 entries), see check_queue_family
+    for ci in range(720):
+        yield ('queue', 6, ci, 13 if tier == 'quick' else 1, seed % 13)
+    if tier == 'thorough':
+        for ci in range(5040):
+            yield ('queue', 7, ci, 89, seed % 89)
+
+
+def check_queue_family(item, tier):
+    """Fans whose start node pushes a zero-cost hub and k nodes with costs = the ci-th permutation of 2..k+1 (every push
+    order of a k-entry priority queue); the hub, expanded first, reaches fan node r at cost 1 (a revision of an entry at any
+    queue position); fan node i reaches the goal at cost gp[i] for every stride-th permutation gp of 0..k-1.  Deterministic
+    A* runs (zero heuristic, lifo and fifo tie-breaking), each compared with the exact optimum."""
+    from msdm.algorithms.search import AStarSearch
+    r = Res()
+    _, k, ci, stride, offset = item
+    n = k + 3
+    goal, hub = n - 1, n - 2
+    for j, costs in enumerate(permutations(range(2, 2 + k))):
+        if j == ci:
+            break
+    gperms = list(permutations(range(k)))
+    with warnings.catch_warnings():
+        warnings.simplefilter('ignore')
+        for rr in range(1, k + 1):
+            for gp in gperms[(ci * 7 + rr + offset) % stride::stride]:
+                edges = [()] * n
+                edges[0] = ((hub, 0),) + tuple((i, costs[i - 1]) for i in range(1, k + 1))
+                edges[hub] = ((rr, 1),)
+                for i in range(1, k + 1):
+                    edges[i] = ((goal, gp[i - 1]),)
+                edges = tuple(edges)
+                cost, hops = exact(n, edges, {goal})
+                prob, lab, unlab = build_problem(n, edges, {goal}, 'next_state', (ci + rr) % 2)
+                step = [{t: c for t, c in e} for e in edges]
+                for tb in ('lifo', 'fifo'):
+                    r.count('executions')
+                    r.count('states')
+                    r.count('transitions')
+                    ctx = {'heuristic': 'zero', 'tie_breaking': tb, 'graph': (n, edges, (goal,))}
+                    try:
+                        res = AStarSearch(heuristic_value=lambda s: 0, tie_breaking_strategy=tb).plan_on(prob)
+                        path = [unlab.get(x) for x in res.path]
+                    except BaseException as e:
+                        r.violation('exception', dict(ctx, error=repr(e)[:300]), item)
+                        continue
+                    if path[0] != 0 or path[-1] != goal or any(v not in step[u] for u, v in zip(path, path[1:])):
+                        r.violation('path_not_a_start_to_goal_path', dict(ctx, path=path), item)
+                        continue
+                    total = sum(step[u][v] for u, v in zip(path, path[1:]))
+                    if res.path_value != total:
+                        r.violation('path_value_not_path_cost', dict(ctx, path=path, path_value=res.path_value, cost=total), item)
+                    if total != cost[0]:
+                        r.violation('path_not_minimum_cost', dict(ctx, path=path, cost=total, optimum=cost[0]), item)
+                    r.outcome((k, tuple(path) if len(path) == 3 else ('via_hub',), total))
+        r.nontriv(item)
+    return r
 
 
 def exact(n, edges, goals):
@@ -197,6 +256,8 @@ def count_paths(n, edges, goals, limit=2):
 
 def check(item, tier):
     from msdm.algorithms.search import AStarSearch, BreadthFirstSearch
+    if item[0] == 'queue':
+        return check_queue_family(item, tier)
     r = Res()
     (n, edges, goals), ki, strl = item
     goals = set(goals)
